@@ -86,6 +86,10 @@ def gen_cases(rng, tier):
     for is_fd in (True, False):
         cases.append({"is_fd": is_fd, "verbose": False, "steps": [[{"arg": "w0.dat", "content": {"rand": 41, "len": 320240}}],
                                                                   [{"arg": "s.txt", "content": {"hex": "31"}}, {"eos": "--eos"}, {"arg": "w2.dat", "content": {"rand": 42, "len": 318241}}, {"arg": "one.d", "content": {"hex": "32"}}]]})
+    for is_fd, k in ((True, 39), (False, 39), (True, 38), (False, 40)):
+        # blocks 1..k, then a file of 3+ blocks: the reserved blocks 40/41 of the catalogue track are never handed out
+        cases.append({"is_fd": is_fd, "verbose": False, "steps": [[{"arg": "head.dat", "content": {"rand": 50 + k, "len": k * 2040}}, {"arg": "next.dat", "content": {"rand": 60 + k, "len": 3 * 2040}},
+                                                                   {"arg": "tail.txt", "content": {"hex": "31"}}]]})
     tiny = [{"arg": f"t{k}.d", "content": {"hex": "2a"}} for k in range(112)]
     for is_fd in (True, False):
         cases.append({"is_fd": is_fd, "verbose": False, "steps": [tiny, [{"arg": "big.dat", "content": {"rand": 3, "len": 5000}}], [{"arg": "one.d", "content": {"hex": "31"}}],
@@ -95,7 +99,7 @@ def gen_cases(rng, tier):
         cases.append({"is_fd": is_fd, "verbose": is_fd, "steps": [[{"arg": "a.dat", "content": {"rand": 6, "len": 3000}}],
                                                                    [{"arg": "\u00c9T\u00c9.DAT", "content": {"hex": "414243"}}],
                                                                    [{"arg": "c.dat", "content": {"rand": 7, "len": 300}}, {"arg": "N.\u20ac", "content": {"hex": "31"}}]]})
-    return cases, {"random": n, "fixed": 8}
+    return cases, {"random": n, "fixed": 12}
 
 
 def run_case(case, ctx):
